@@ -124,3 +124,18 @@ def program_key(g, run_cfg):
     from harness.common import canon
     return canon({"n": g["nodes"], "b": g.get("bound"), "e": g.get("entrypoints"), "s": g.get("selected"),
                   "in": run_cfg["inputs"], "r": run_cfg.get("runner"), "mi": run_cfg.get("max_iterations"), "sel": run_cfg.get("select")})
+
+
+def run_model_programs(ctx, prop, imports, items):
+    """The concrete model programs that the run-level family theorems speak about (Samples.gated, InterruptRun.chain, ...), evaluated
+    in Coq and compared with the implementation's run of the same program.  items: (case, code, eqb, model_expr, real_literal)."""
+    batch = CoqBatch(prop + "m", IMPORTS + list(imports), shard=200)
+    for i, (case, code, eqb, mexp, real) in enumerate(items):
+        batch.add(i, code, eqb, mexp, real)
+    res = batch.run()
+    if res["error"]:
+        ctx.violation("harness", res["error"])
+    for (ci, code, mv, real, mexp) in res["failed"]:
+        ctx.violation("correspondence", f"the model program of the run-level theorem and the implementation disagree: model {mv[:300]} vs implementation {real[:300]}",
+                      case=items[ci][0], expr=mexp[:300])
+    return res["n"]
